@@ -258,6 +258,8 @@ func splitTop(s string, sep byte) []string {
 	return parts
 }
 
+var reValueMethod = regexp.MustCompile(`^([A-Za-z_]\w*)\.([A-Za-z_]\w*)$`)
+
 var reLabel = regexp.MustCompile(`^\[([^\]]*)\]\s*`)
 
 // parseClause parses "[label;C01,C02] expr" (label and props optional).
@@ -335,6 +337,9 @@ func (sp *Specs) loadSpecFile(path, pkgPath string) error {
 			reason := ""
 			if i := strings.Index(rest, " -- "); i >= 0 {
 				key, reason = strings.TrimSpace(rest[:i]), strings.TrimSpace(rest[i+4:])
+			}
+			if m := reValueMethod.FindStringSubmatch(key); m != nil && word != "extern" && word != "functype" && word != "iface" {
+				key = "(" + m[1] + ")." + m[2]
 			}
 			cur = &Contract{Key: key, PkgPath: pkgPath, Loops: map[int]*LoopSpec{}, AtCalls: map[string][]GhostStmt{}, File: path, Line: lineNo, Safety: true, MayPanic: true, Reason: reason}
 			cur.Extern = word == "extern"
